@@ -62,7 +62,7 @@ func runC07(c *eng.Ctx) {
 	iterate := p.Method(pkgQueue, "TaskQueue", "Iterate")
 	filter := p.Method(pkgQueue, "TaskQueue", "Filter")
 	getHookName := func(e ast.Expr) bool { return isCallNamed(info, e, "GetHookName") }
-	taskPrm := a.Obj.Type().(*types.Signature).Params().At(2)
+	taskPrm := paramLike(a.Obj.Type().(*types.Signature), 2, typeNamed("pkg/task", "Task"))
 
 	// ---- R2
 	r2 := c.Rule("C07.R2", "D+B:flags", "merge predicate: append only under equal hook name and equal task type; every non-merged task (other than the head itself) leaves the sticky stop flag set; the flag is tested first", 3)
